@@ -2,6 +2,11 @@
 
 # engine -> (regex on the driver's branch tags that makes a case non-trivial, description)
 ENGINE_RULES = {
+    "btor2": (r"(lines=[1-9]|fin=E:syn|fin=E:io|valid=1)",
+              "BTOR2 documents: every operator / constant form / sort / line kind through the public constructors and "
+              "write_into, layout variants, keyword lengths around the 8-byte SWAR boundary, mutations, arbitrary "
+              "bytes, single-token corruptions, faults at random / every offset, line sources, validator cases; every "
+              "case under 5-6 read schedules; non-trivial = at least one line, an error outcome or a validator case"),
     "stream": (r"n=[1-9]",
                "CNF streams of 10^4..3*10^6 clauses generated on the fly (never materialised), chunk sizes "
                "1/64/4096/16384, read sizes 1/7/64/16384, optionally one 10^4..2*10^5-literal clause; the peak live "
@@ -32,6 +37,8 @@ HOOK_COMMITS = []
 
 # (name, path, description)
 ENGINES = [
+    ("btor2", "harness/src/eng_btor2.rs + gen_btor2.rs + lean/Driver/EngBtor2.lean",
+     "flussab-btor2 parser/writer under many schedules vs. the View-level Lean model vs. independent tokenizer"),
     ("stream", "harness/src/eng_stream.rs + lean/Driver/EngStream.lean",
      "on-the-fly CNF streams parsed by the real streaming parser under a counting global allocator"),
     ("cnf", "harness/src/eng_cnf.rs + gen_cnf.rs + lean/Driver/EngCnf.lean",
@@ -94,15 +101,19 @@ PROPS = {
              "discipline (machine-level memory safety) is outside Lean. Trusted: Lean kernel, harness.",
         assumptions=["chunk >= 1", "position() not wrapped"]),
     "C09": dict(
-        module="Flussab.Props.C09", engines=[("reader", 4000, 150000, "")],
+        module="Flussab.Props.C09", modules=["Flussab.Props.C09", "Flussab.Props.C09Parsers"],
+        engines=[("reader", 4000, 150000, ""), ("cnf", 2500, 80000, "ls"), ("btor2", 1500, 50000, "ls")],
         claim="Reader layer proved for all histories and schedules: exactly one non-Interrupted read per refill "
               "(one_read_per_refill), no read when buffered data satisfies the request (no_read_if_satisfied), no "
               "call after EOF/error (no_read_after_end, never_called_after_end), reads are demand driven "
               "(reads_only_when_demanded: the last read was issued while the demanded byte was not buffered). "
               "Tie: reader engine compares read-call counts after every op; oracle counts productive reads.",
-        note="The parser half (no look-ahead past the completing line) is added as theorems over the View-level "
-             "parser models in a later step of this build; until then it is carried by the format engines' "
-             "line-source oracle only. Trusted: Lean kernel, harness.",
+        note="Parser half: for the DIMACS family a theorem over the View-level models with the look-ahead ghost "
+             "`peeked` (cnf_item_no_lookahead / cnf_header_no_lookahead / cnf_document_no_lookahead: when an item is "
+             "handed out peeked <= pos + 1 and (peeked <= pos or end of input seen) - nothing beyond the completing "
+             "newline was demanded); with reads_only_when_demanded this bounds what a line-by-line source is asked for. "
+             "BTOR2 and AIGER: engine (one line per read, delivered-byte count compared exactly with the model's "
+             "prediction) without a look-ahead theorem yet. Trusted: Lean kernel, harness.",
         assumptions=["chunk >= 1"]),
     "C13": dict(
         module="Flussab.Props.C13", engines=[("scan", 30000, 1500000, "")], release=True,
@@ -168,9 +179,11 @@ PROPS = {
              "they are covered by C14's length invariant only.",
         assumptions=["the sink obeys the Write contract (accepts at most the slice length)"]),
     "C01": dict(
-        module="Flussab.Props.C01", engines=[("cnf", 4000, 200000, "mix"), ("reader", 1500, 50000, "")],
+        module="Flussab.Props.C01", modules=["Flussab.Props.C01", "Flussab.Props.C01Btor2"],
+        engines=[("cnf", 4000, 200000, "mix"), ("btor2", 3000, 150000, "rt+layout+kinds+mutate+arbitrary+kw"), ("reader", 1500, 50000, "")],
         audit_observables=True,
-        bv_decide_theorems=["multi_scanners_buffer_independent"],
+        bv_decide_theorems=["multi_scanners_buffer_independent", "btor2_lowercase_kernel", "btor2_lowercase_kernel_no_panic",
+                            "btor2_lowercase_eq_spec", "btor2_lowercase_buffer_independent", "btor2_lowercase_eq_spec_const"],
         claim="Where byte arrival is visible it is a theorem: any two DeferredReaders over the same stream - "
               "arbitrary different schedules (short reads, Interrupted), chunk sizes, buffer layouts - answer "
               "request_byte_at_offset / advance / buf()[..n] / position / mark / is_at_end / io_error / check_io_error "
@@ -179,8 +192,9 @@ PROPS = {
               "parser models are functions of the View by construction; that the Rust parsers are such functions is "
               "checked by running every input under 5-6 schedules x chunk sizes (1-byte reads, chunk 1/2/8 with "
               "Interrupted, random, two-piece splits) and comparing with the one model answer.",
-        note="Parser level: DIMACS family + solver log are modelled and tied so far; AIGER and BTOR2 parsers are "
-             "added as their models land (their buf_len()-dependent loops get L1-level lemmas). Trusted: Lean kernel "
+        note="Parser level: DIMACS family, solver log and BTOR2 (incl. btor2_lowercase_eq_spec: the SWAR keyword "
+             "scanner, kernel regenerated from token.rs, equals the reference run for every buffered amount) are "
+             "modelled and tied; AIGER is added when its model lands. Trusted: Lean kernel "
              "(+ bv_decide axioms through C13), harness, audit that format code uses only the modelled reader API.",
         assumptions=["chunk >= 1", "position() not wrapped"]),
     "C10": dict(
@@ -209,4 +223,80 @@ PROPS = {
         note="Parser-level limit theorems for DIMACS are in progress (Hoare-style proof files); AIGER/BTOR2 parts "
              "arrive with their models. Trusted: Lean kernel, harness, the independent reference lexer.",
         assumptions=["64-bit usize/isize"]),
+    "C03": dict(
+        module="Flussab.Props.C03Cnf", modules=["Flussab.Props.C03Cnf", "Flussab.Props.C03Btor2"],
+        engines=[("cnf", 3000, 120000, "rt+layout"), ("btor2", 3000, 120000, "rt+rtbad+layout+kinds+valid")],
+        claim="Theorems over the parser and writer models: cnf_roundtrip (CNF/WCNF/GCNF, every literal type, both "
+              "ignore_header settings: parse(write(h, cs)) = (h, cs, clean end) for every value in the explicit "
+              "decidable domain WF), cnf_parsed_is_wf + cnf_parse_write_parse (whatever is accepted is in WF, hence "
+              "parse o write o parse = parse); btor2_roundtrip (every line kind, exact cursor), "
+              "btor2_document_roundtrip, btor2_const_domain, keyword tables regenerated from the source. Tie: values "
+              "built from the repo's own types and writers, parsed back and compared (x= expected value), and "
+              "parse(write(parse(t))) = parse(t) on every accepted text.",
+        note="AIGER round-trip theorems arrive with the AIGER model (until then not covered by theorems). BTOR2 "
+             "converse (parsed_is_wf) is left as btor2_parsed_is_wf_full. Texts shorter than 2^64-1 bytes, "
+             "non-failing source. Trusted: Lean kernel, harness, tools/gen_tables.py.",
+        trusted=["tools/gen_tables.py (keyword / name tables translator)"],
+        assumptions=["document shorter than 2^64 - 1 bytes"]),
+    "C04": dict(
+        module="Flussab.Props.C04", modules=["Flussab.Props.C04", "Flussab.Props.C04Btor2"],
+        engines=[("cnf", 3000, 100000, "fault+logfault"), ("cnf", 25, 1500, "sweep"), ("btor2", 2000, 60000, "fault"), ("btor2", 15, 600, "sweep")],
+        claim="Theorems for every byte string and every fault offset (the view delivers b then fails): "
+              "cnf_fault_never_clean_end / log_fault_never_ok / btor2_fault_final (a failing source is never reported "
+              "as completely parsed), cnf_fault_syntax_only_before_end / btor2_fault_syntax_before_end (a syntax error "
+              "is only reported while the reader has not hit the failure point: never 'because the data ended where "
+              "the source failed'), io_error_only_from_fault; from the invariant 'fault and sawEnd imply the error is "
+              "parked' carried through every parser function. Tie + item-prefix clause: engines with a fault at "
+              "random and at EVERY offset of generated documents, comparing the final error kind and the items with "
+              "the fault-free run of the real parser.",
+        note="The clause 'items before the error equal the fault-free run's items' is checked by the engines (fault "
+             "sweeps), not yet a theorem (needs a prefix-monotonicity simulation). AIGER arrives with its model. "
+             "Trusted: Lean kernel, harness.",
+        assumptions=["input shorter than 2^63 bytes"]),
+    "C05": dict(
+        module="Flussab.Props.C05", modules=["Flussab.Props.C05", "Flussab.Props.C05Btor2"],
+        engines=[("cnf", 5000, 250000, "mutate+arbitrary+corrupt+logmut+layout"), ("btor2", 4000, 150000, "mutate+arbitrary+corrupt+kw")],
+        release=True,
+        claim="Every Rust panic site is an explicit value in the models (advance / slice beyond scanned data, column "
+              "underflow, from_utf8().unwrap(), line_at_offset overflow, NonZeroU64::new(0).unwrap(), loop fuel). "
+              "Theorems for EVERY byte string and both source kinds: cnf_new_no_panic, cnf_next_clause_no_panic, "
+              "log_no_panic, cnf_parse_all_total, btor2_tokens_no_panic, btor2_next_line_no_panic, "
+              "btor2_parse_no_panic - never a panic, never fuel exhaustion (each loop iteration consumes a byte), so "
+              "with Lean's totality every parse terminates with items / clean end / io / syntax error; "
+              "parser_buffers_bounded (a clause's literal list is no longer than the bytes consumed for it). Tie: "
+              "engines on mutated / arbitrary / corrupted inputs, all literal types, debug AND release builds, each "
+              "call under catch_unwind; bounded memory measured by the counting allocator (peak <= 64*len + 1 MiB).",
+        note="Heap size, native stack depth and wall time are measured, not modelled. AIGER arrives with its model. "
+             "Hypothesis: input shorter than 2^63 bytes (so line_at_offset cannot overflow). Trusted: Lean kernel, "
+             "harness.",
+        assumptions=["input shorter than 2^63 bytes"]),
+    "C07": dict(
+        module="Flussab.Props.C07", engines=[("cnf", 5000, 250000, "layout+log+rt")],
+        claim="The layout grammar is formalised as data (Spec/Layout.lean: blanks/tabs, LF/CRLF, comment and blank "
+              "lines before the header / between clauses / between the lines of a clause, clauses split over lines, "
+              "leading zeros, terminator spellings, missing final newline, trailing junk; Spec/LogLayout.lean for "
+              "solver logs). Theorems: cnf_parse_render - for EVERY layout of EVERY document in the domain WF, all "
+              "three formats, all literal types, both ignore_header settings, parseAll (render l doc) = doc with a "
+              "clean end; cnf_layout_independent; log_parse_render; render_canonical (the canonical layout is what the "
+              "writers emit). Tie: the harness's independent generator of the same grammar renders abstract values; "
+              "parsed result must equal the value (x=) on the real parser and on the model.",
+        note="One accepted text is outside the log grammar: a value-line literal directly followed by the line end. "
+             "Documents shorter than 2^64-1 bytes, non-failing source. Trusted: Lean kernel, harness (its layout "
+             "generator is independent of Spec/Layout.lean).",
+        assumptions=["document shorter than 2^64 - 1 bytes"]),
+    "C08": dict(
+        module="Flussab.Props.C08", modules=["Flussab.Props.C08", "Flussab.Props.C08Btor2"],
+        engines=[("cnf", 5000, 250000, "corrupt+mutate+arbitrary+logmut"), ("btor2", 4000, 150000, "corrupt+mutate+arbitrary")],
+        claim="Range, for every input and both source kinds: cnf_error_in_range, log_error_in_range, "
+              "btor2_error_in_range - a reported (line, col) satisfies 1 <= line <= nlines+1 and 1 <= col <= "
+              "lineLen(line)+1 (lines as the property counts them), from the invariant 'line = 1 + newlines before "
+              "line_start, line_start follows a newline or is 0 or the end'. Exact location per error class: "
+              "unexpected_at_cursor, range_error_at_token_start, literal_error_at_mark, exceeds_var_count_at_mark, "
+              "btor2_number_error_at_token_start. The catalogue clause (corrupt one known token => error on that "
+              "token) is evaluated on the implementation: documents rendered with known token spans (plain and full "
+              "layout), one token replaced (garbage, out-of-range, overflowing, wrap-class numeral), reported "
+              "position must lie on the token, under every schedule.",
+        note="The catalogue clause is checked, not proved (C08's per-class theorems are its proved part). AIGER "
+             "arrives with its model. Trusted: Lean kernel, harness.",
+        assumptions=["input shorter than 2^63 bytes"]),
 }
